@@ -434,4 +434,67 @@ theorem cropStage2_scale (k hi : ℚ) (hk : 0 < k) (s : Spectrum) :
     · simp
     · simp only [if_true, mask_high_scale k hi hk, keepMask_map]
 
+theorem interleave_length : ∀ (a b : List ℚ), a.length = b.length + 1 → (interleave a b).length = a.length + b.length := by
+  intro a
+  induction a with
+  | nil => intro b h; simp at h
+  | cons x xs ih =>
+    intro b h
+    cases b with
+    | nil => simp [interleave]
+    | cons y ys =>
+      have := ih ys (by simpa using h)
+      simp only [interleave, List.length_cons, this]; omega
+
+theorem simpsBins_length : ∀ (k : ℕ) (x f : List ℚ), x.length = f.length → x.length = 2 * k + 1 → (simpsBins x f).length = k := by
+  intro k
+  induction k with
+  | zero =>
+    intro x f hl hx
+    match x, f, hl, hx with
+    | [x0], [f0], _, _ => simp [simpsBins]
+  | succ k ih =>
+    intro x f hl hx
+    match x, f, hl, hx with
+    | x0 :: x1 :: x2 :: xs, f0 :: f1 :: f2 :: fs, hl, hx =>
+      have := ih (x2 :: xs) (f2 :: fs) (by simpa using hl) (by simp at hx ⊢; omega)
+      simp [simpsBins, this]
+
+theorem simpsPoints_length (sym intC : Bool) (c : List ℚ) (hc : 2 ≤ c.length) : (simpsPoints sym c intC).length = 2 * c.length + 1 := by
+  match c, hc with
+  | c0 :: c1 :: cs, _ =>
+    have hm : ((midpoints (c0 :: c1 :: cs)).map (fun q : ℚ => if intC then truncQ q else q)).length = (c0 :: c1 :: cs).length - 1 := by
+      rw [List.length_map, midpoints_length]
+    have hi := interleave_length (c0 :: c1 :: cs) ((midpoints (c0 :: c1 :: cs)).map (fun q : ℚ => if intC then truncQ q else q))
+      (by rw [hm]; simp)
+    rw [hm] at hi
+    cases hcs : (c1 :: cs).getLast? with
+    | none => simp at hcs
+    | some l =>
+      cases hd : ((c0 :: c1 :: cs).dropLast).getLast? with
+      | none => simp at hd
+      | some p =>
+        simp only [simpsPoints, List.getLast?_cons_cons, hcs, hd]
+        cases sym
+        · -- inside
+          simp only [Bool.false_eq_true, if_false]
+          generalize hx : interleave (c0 :: c1 :: cs) ((midpoints (c0 :: c1 :: cs)).map (fun q : ℚ => if intC then truncQ q else q)) = x at hi
+          match x, hi with
+          | x0 :: x1 :: rest, hi =>
+            simp only []
+            cases hA : (x1 :: rest).getLast? with
+            | none => simp at hA
+            | some l' =>
+              cases hB : ((x0 :: (if intC then truncQ (x0 + (x1 - x0) / 2) else x0 + (x1 - x0) / 2) :: x1 :: rest).dropLast).getLast? with
+              | none => simp at hB
+              | some p' =>
+                simp only [List.length_append, List.length_dropLast, List.length_cons, List.length_nil]
+                simp only [List.length_cons] at hi
+                omega
+          | [], hi => simp at hi
+          | [x0], hi => simp at hi; omega
+        · simp only [if_true, List.length_cons, List.length_append] at hi ⊢
+          simp at hi ⊢; omega
+
+
 end Lentil.Spec
